@@ -108,3 +108,33 @@ Theorem C13_line_numbers_errors : forall f its consts labels compress e,
   assemble_items (map (flit f) its) consts labels compress = Fail (fperr f e).
 Proof. exact relabel_failure. Qed.
 Print Assumptions C13_line_numbers_errors.
+
+(* the whole model of asm.assemble (reader + lexer + parser + passes, Proofs/Whole.v): the result -- bytes of every chunk, constants,
+   labels, or the kind of failure -- depends on the TOKENS of the non-blank lines that were read and on nothing else: not on the
+   separator style, indentation or comments of a line, not on blank or comment-free lines in between, not on file names, physical
+   line numbers or the way the text is distributed over included files *)
+From BB Require Model.Reader Proofs.Whole Proofs.ParseRelabel Proofs.WholeSplice.
+Theorem C13_whole_tokens :
+  forall fuel1 fs1 cwd1 incs1 top1 fuel2 fs2 cwd2 incs2 top2 consts labels compress la lb,
+    Reader.read_lines fuel1 fs1 cwd1 incs1 top1 = Reader.ROk la -> Reader.read_lines fuel2 fs2 cwd2 incs2 top2 = Reader.ROk lb ->
+    Forall2 (fun a b => lex_tokens (Reader.l_contents a) = lex_tokens (Reader.l_contents b)) la lb ->
+    ParseRelabel.wshape (Whole.assemble_model fuel1 fs1 cwd1 incs1 top1 consts labels compress) =
+    ParseRelabel.wshape (Whole.assemble_model fuel2 fs2 cwd2 incs2 top2 consts labels compress).
+Proof. exact WholeSplice.whole_same_tokens. Qed.
+Print Assumptions C13_whole_tokens.
+(* ... and lines without any token (comment-only lines) may be added or removed anywhere *)
+Theorem C13_whole_tokens_modulo_comment_lines :
+  forall fuel1 fs1 cwd1 incs1 top1 fuel2 fs2 cwd2 incs2 top2 consts labels compress la lb,
+    Reader.read_lines fuel1 fs1 cwd1 incs1 top1 = Reader.ROk la -> Reader.read_lines fuel2 fs2 cwd2 incs2 top2 = Reader.ROk lb ->
+    Forall2 (fun a b => lex_tokens (Reader.l_contents a) = lex_tokens (Reader.l_contents b))
+            (filter (fun a => negb (WholeSplice.no_tokens (Reader.l_contents a))) la)
+            (filter (fun b => negb (WholeSplice.no_tokens (Reader.l_contents b))) lb) ->
+    ParseRelabel.wshape (Whole.assemble_model fuel1 fs1 cwd1 incs1 top1 consts labels compress) =
+    ParseRelabel.wshape (Whole.assemble_model fuel2 fs2 cwd2 incs2 top2 consts labels compress).
+Proof. exact WholeSplice.whole_same_tokens_modulo_comment_lines. Qed.
+Print Assumptions C13_whole_tokens_modulo_comment_lines.
+(* the parser's part of "line numbers are irrelevant" (the passes' part: C13_line_numbers_irrelevant / _errors) *)
+Theorem C13_parser_line_numbers_irrelevant : forall f l tokens,
+  parse_item (f l) tokens = ParseRelabel.ffres f (fitem f) (parse_item l tokens).
+Proof. exact ParseRelabel.parse_item_relabel. Qed.
+Print Assumptions C13_parser_line_numbers_irrelevant.
